@@ -50,5 +50,11 @@ if __name__ == "__main__":
     except driver.HarnessError as e:
         print(f"HARNESS-ERROR: {e}", file=sys.stderr)
         rc = 2
+    except Exception:  # noqa: BLE001
+        # a crash of the harness is never a verdict about pytato
+        import traceback
+        traceback.print_exc()
+        print("HARNESS-ERROR: the check itself crashed", file=sys.stderr)
+        rc = 2
     sys.stdout.flush()
     sys.exit(rc)
